@@ -305,11 +305,25 @@ def real_scene(pid, n, m, mode, policy, task, thr, e_labels, g_labels, mixed_siz
     return Out(parts=select(pid, parts), obs=obs)
 
 
-def roi_scene(pid, n, m, mode, policy, task, thr):
-    """2-D objects with integer ROIs (x offset symbolic), real matching classes."""
+def roi_scene(pid, n, m, mode, policy, task, thr, family="autoware"):
+    """2-D objects with integer ROIs (x offset symbolic), real matching classes; Autoware or traffic-light labels (ROI
+    objects are matched by geometry whatever their label family)."""
+    global TARGETS
+    saved = TARGETS
+    if family == "traffic_light":
+        from perception_eval.common.label import TrafficLightLabel as TL
+        TARGETS = [TL.GREEN, TL.RED]
+    try:
+        return _roi_scene(pid, n, m, mode, policy, task, thr, family)
+    finally:
+        TARGETS = saved
+
+
+def _roi_scene(pid, n, m, mode, policy, task, thr, family):
     maximize = MAXIMIZE[mode]
-    ests = [_mk2d(f"e{i}", FrameID.CAM_FRONT, CAR, (integer(f"e{i}_x", 0, 40), 0, 4, 6)) for i in range(n)]
-    gts = [_mk2d(f"g{j}", FrameID.CAM_FRONT, CAR, (integer(f"g{j}_x", 0, 40), 0, 4, 6)) for j in range(m)]
+    label, cam = (CAR, FrameID.CAM_FRONT) if family == "autoware" else (TARGETS[0], FrameID.CAM_TRAFFIC_LIGHT_NEAR)
+    ests = [_mk2d(f"e{i}", cam, label, (integer(f"e{i}_x", 0, 40), 0, 4, 6)) for i in range(n)]
+    gts = [_mk2d(f"g{j}", cam, label, (integer(f"g{j}_x", 0, 40), 0, 4, 6)) for j in range(m)]
     thresholds = None
     if thr:
         thresholds = [real(f"thr_{k}", lo=0, hi=1 if maximize else None) for k in range(len(TARGETS))]
@@ -425,6 +439,8 @@ def obligations(pid, tier):
     qc = [dict(n=n, m=m, mode=mode, policy="default", task=task, thr=thr)
           for (n, m) in ([(1, 1), (2, 1)] if quick else [(1, 1), (2, 1), (1, 2), (2, 2)])
           for mode in ("center", "iou2d") for task in ("detection2d", "fp_validation2d") for thr in (False, True)]
+    qc += [dict(n=n, m=m, mode=mode, policy="default", task="detection2d", thr=thr, family="traffic_light")
+           for (n, m) in [(1, 1), (2, 1)] for mode in ("center", "iou2d") for thr in (False, True)]
     obs.append(Obligation("roi_geometry", roifn, cases=qc, extras=_lazy_extras,
                           desc="get_object_results on 2-D objects with integer ROIs, real matching classes"))
     return obs
